@@ -211,6 +211,11 @@ def worker_main(pid, shard, nshards, seed, tier, outpath):
                 elif out.structure is not None and out.nontrivial:
                     structures.add(out.structure)
                 if out.sample is not None and len(result['samples']) < 3:
+                    if out.decks and not result['samples']:
+                        # one full input of this run, as the converter saw it
+                        out.sample.setdefault('deck_text',
+                                              out.decks[0][1][:1500])
+                        out.sample.setdefault('argv', out.decks[0][2])
                     result['samples'].append(out.sample)
                 for vio in out.violations:
                     vio = dict(vio)
